@@ -351,12 +351,14 @@ OpenTracked == open = {c \in Conns : cstate[c] \in {"lent", "idle", "delivered",
 \* a connection is in exactly one place; lent to at most one request; never both idle and lent
 Exclusive ==
   /\ \A i, j \in 1..Len(idle) : i # j => idle[i] # idle[j]
-  /\ \A c \in Conns : (cstate[c] = "idle") <=> (\E i \in 1..Len(idle) : idle[i] = c)
-  /\ \A c \in Conns : (cstate[c] = "lent") <=> (\E r \in Reqs : lent[r] = c)
-  /\ \A r, s \in Reqs : (r # s /\ lent[r] # Nil) => lent[r] # lent[s]
-  /\ \A c \in Conns : (cstate[c] = "delivered") <=> (\E r \in Reqs : wconn[r] = c)
-  /\ \A r, s \in Reqs : (r # s /\ wconn[r] # Nil) => wconn[r] # wconn[s]
-  /\ \A c \in Conns : (cstate[c] = "dfhand") <=> (\E r \in Reqs : dfconn[r] = c)
+  /\ \A c \in Conns :
+       LET owners == {r \in Reqs : lent[r] = c}
+           holders == {r \in Reqs : wconn[r] = c}
+           dialers == {r \in Reqs : dfconn[r] = c}
+       IN /\ (cstate[c] = "idle") <=> (\E i \in 1..Len(idle) : idle[i] = c)
+          /\ Card(owners) = (IF cstate[c] = "lent" THEN 1 ELSE 0)
+          /\ Card(holders) = (IF cstate[c] = "delivered" THEN 1 ELSE 0)
+          /\ Card(dialers) = (IF cstate[c] = "dfhand" THEN 1 ELSE 0)
   /\ \A r \in Reqs : (pc[r] = "has") <=> (lent[r] # Nil)
   /\ \A r \in Reqs : (wst[r] = "delivered") <=> (wconn[r] # Nil)
 
@@ -372,8 +374,10 @@ FreshIdAvailable == (\E r \in Reqs : pc[r] = "dialing" \/ dfor[r] = "dialing") =
 Outcomes == \A r \in Reqs : /\ (res[r] = "nofree") => ~WaitEnabled
                             /\ (res[r] = "timeout") => WaitEnabled
 
-Quiescent == /\ \A r \in Reqs : pc[r] = "done" /\ dfor[r] = "none"
+\* no call is in progress (calls not yet begun hold nothing) and nothing is in transit
+Quiescent == /\ \A r \in Reqs : pc[r] \in {"start", "done"} /\ dfor[r] = "none"
              /\ \A c \in Conns : cstate[c] \in {"none", "idle"}
+Finished == \A r \in Reqs : pc[r] = "done"
 QuiescentExact == Quiescent => (count = Len(idle) /\ open = {c \in Conns : cstate[c] = "idle"})
 AllClosed == Quiescent /\ idle = <<>>
 QuiescentZero == AllClosed => (count = 0 /\ open = {})
@@ -386,5 +390,5 @@ Inv == TypeOK /\ Bound /\ Account /\ OpenBound /\ OpenTracked /\ Exclusive /\ No
 WaiterServed == \A r \in Reqs : (pc[r] \in {"enq", "waiting"}) ~> (pc[r] \in {"has", "done"})
 \* every call returns, and once all owners are done and idle connections have expired the pool is empty
 AllReturn == \A r \in Reqs : <>(pc[r] = "done")
-Drained == <>[](AllClosed /\ count = 0)
+Drained == <>[](Finished /\ AllClosed /\ count = 0)
 =============================================================================
